@@ -8,6 +8,7 @@ import (
 	"bytes"
 	"crypto/sha256"
 	"crypto/x509"
+	"encoding/binary"
 	"fmt"
 	"io"
 
@@ -34,6 +35,33 @@ func independentDigest(b []byte, cksum, dd4, end int) []byte {
 	h.Write(b[dd4+8 : end])
 	h.Write(make([]byte, (8-end%8)%8))
 	return h.Sum(nil)
+}
+
+// peHashInput rebuilds the Authenticode hash input of a real image file whose raw data is contiguous and in file order (true for the
+// repository's binaries): everything in front of the certificate table except the checksum and the certificate-table entry, padded to 8.
+func peHashInput(f []byte) []byte {
+	if len(f) < 0x40 {
+		return nil
+	}
+	lfanew := int(binary.LittleEndian.Uint32(f[0x3c:]))
+	opt := lfanew + 24
+	if opt+2 > len(f) {
+		return nil
+	}
+	dd4 := opt + 144
+	if binary.LittleEndian.Uint16(f[opt:]) == 0x10b {
+		dd4 = opt + 128
+	}
+	ck := opt + 64
+	if dd4+8 > len(f) {
+		return nil
+	}
+	end := len(f)
+	if va := int(binary.LittleEndian.Uint32(f[dd4:])); va > 0 && va <= len(f) {
+		end = va
+	}
+	hi := append(append(append([]byte{}, f[:ck]...), f[ck+4:dd4]...), f[dd4+8:end]...)
+	return append(hi, make([]byte, (8-end%8)%8)...)
 }
 
 func getTestImages() map[string]*testImage {
@@ -135,6 +163,28 @@ func runImgSym(sc M) {
 			bad = append(bad, "verify-after-foreign-entry: a valid signature behind another signature entry is not found ("+r2+")")
 		}
 	}
+	// two entries that each satisfy HALF of the rule: the first commits to these bytes but is by somebody else, the last is by this
+	// certificate's key but commits to another image - together they are still no signature by that key over these bytes
+	if cn := str(sc, "cert"); cn == "A" || cn == "B" {
+		me, them, tk := "A", "B", "k2"
+		myk := "k1"
+		if cn == "B" {
+			me, them, tk, myk = "B", "A", "k1", "k2"
+		}
+		thisID, otherID := "m1", "m2"
+		if str(sc, "img") == "I2" {
+			thisID, otherID = "m2", "m1"
+		}
+		byThem := buildSymBlob("spc", thisID, []symSigner{{Sid: them, SigKey: tk, SigOver: "attrs_as_encoded", Attrs: "present", CT: "spc", MD: thisID, Order: "canonical"}}, "signer", true, dg)
+		mineOther := buildSymBlob("spc", otherID, []symSigner{{Sid: me, SigKey: myk, SigOver: "attrs_as_encoded", Attrs: "present", CT: "spc", MD: otherID, Order: "canonical"}}, "signer", true, dg)
+		for _, tbl := range [][][]byte{{byThem, mineOther}, {mineOther, byThem}, {byThem, mineOther, byThem}} {
+			if rr := verify("halves", attachSignatures(ti, tbl...)); rr == "true" || rr == "true+error" {
+				bad = append(bad, "halves: an image carrying somebody else's signature over these bytes and this key's signature over another image verifies")
+				break
+			}
+		}
+		delete(results, "halves")
+	}
 	// one parsed image verified against several certificates in turn: every verdict must be the one a fresh parse gives
 	// (nothing learnt while verifying against one certificate may carry over to another)
 	{
@@ -196,6 +246,22 @@ func runImgSym(sc M) {
 			})
 			return verdict(ok, err, o)
 		}
+		// one parsed Authenticode object asked several times (another certificate first, then this one, then again): as a fresh object answers
+		{
+			var a *authenticode.Authenticode
+			guard(func() error { a, _ = authenticode.ParseAuthenticode(blob); return nil })
+			if a != nil {
+				for k, cc := range []*x509.Certificate{certByName("At"), cert, certByName("B"), cert} {
+					var ok bool
+					var err error
+					o, _ := guard(func() error { ok, err = a.Verify(cc, bytes.NewReader(hi)); return nil })
+					if got := verdict(ok, err, o); cc == cert && got != "true" {
+						bad = append(bad, fmt.Sprintf("direct-shared: call %d on one parsed signature object gives %s, a fresh object gives true", k+1, got))
+						break
+					}
+				}
+			}
+		}
 		if d0 := direct("direct", bytes.NewReader(hi)); d0 == "true" {
 			ext := append(append([]byte{}, hi...), prbytes("appended-stream", 100)...)
 			for _, rd := range []io.Reader{bytes.NewReader(ext), &pieceReader{b: ext, max: len(hi), eofWithData: true}, &pieceReader{b: ext, max: 13, eofWithData: true}, onlyReader{bytes.NewReader(ext)}} {
@@ -242,7 +308,93 @@ func runImgSym(sc M) {
 // signed with k2 under A's issuer+serial, (c) an honest signature over another image's digest (transplant).
 // Expected by VerifyImage: (a) verifies against A only; (b), (c) never; no boundary flip of a covered region of (a)
 // leaves it verifying.
-func init() { families["imglayout"] = runImgLayout }
+func init() { families["imglayout"] = runImgLayout; families["imgnested"] = runImgNested }
+
+// Family "imgnested" (C02): an image in which the raw data of one section lies inside the raw data of another (the specification's
+// procedure hashes each section's raw data in file-offset order, so the shared bytes go in twice and EVERY byte of both sections is
+// covered).  Signed honestly over that digest; no change of a byte of the enclosing section may leave it verifying.
+func runImgNested(sc M) {
+	id := sc["sc"]
+	bits := 64
+	if num(sc, "bits") == 32 {
+		bits = 32
+	}
+	l := peLayout{bits: bits, lfanew: 64, secs: []peSec{{96, 1}, {16, 2}}, slack: 8, gappos: 1, trail: num(sc, "trail")}
+	im := buildPE(l, fmt.Sprint("c02:nested:", bits))
+	b := im.b
+	st := l.lfanew + 24 + 240
+	if bits == 32 {
+		st = l.lfanew + 24 + 224
+	}
+	inner := im.ptrs[0] + num(sc, "off") // the second section now points into the first
+	put32(b, st+40+20, uint32(inner))
+	h := sha256.New()
+	h.Write(b[:im.cksum])
+	h.Write(b[im.cksum+4 : im.dd4])
+	h.Write(b[im.dd4+8 : im.soh])
+	h.Write(b[im.ptrs[0] : im.ptrs[0]+96])
+	h.Write(b[inner : inner+16])
+	sum := im.soh + 96 + 16
+	h.Write(b[sum:])
+	h.Write(make([]byte, (8-len(b)%8)%8))
+	ti := &testImage{unsigned: b, img: im, layout: l, digest: h.Sum(nil)}
+	blob := buildSymBlob("spc", "mN", []symSigner{{Sid: "A", SigKey: "k1", SigOver: "attrs_as_encoded", Attrs: "present", CT: "spc", MD: "mN", Order: "canonical"}}, "signer", true, map[string][]byte{"mN": ti.digest})
+	file := attachSignatures(ti, blob)
+	cert := certByName("A")
+	bad := []string{}
+	if sc["libsigned"] == true {
+		// the same image signed by the library itself (whatever digest it computes, it then has to defend every covered byte)
+		var out []byte
+		guard(func() error {
+			p, err := authenticode.Parse(bytes.NewReader(b))
+			if err != nil {
+				return err
+			}
+			if _, err := p.Sign(testKey("k1"), cert); err != nil {
+				return err
+			}
+			out = p.Bytes()
+			return nil
+		})
+		if out == nil {
+			emit(M{"sc": id, "ev": "call-end", "call": "imgnested", "honest": "unsigned", "flips": 0, "agree": true, "bad": bad})
+			return
+		}
+		file = out
+	}
+	ver := func(f []byte) string {
+		var ok bool
+		var err error
+		o, _ := guard(func() error {
+			p, e := authenticode.Parse(bytes.NewReader(f))
+			if e != nil {
+				err = e
+				return nil
+			}
+			ok, err = p.Verify(cert)
+			return nil
+		})
+		return verdict(ok, err, o)
+	}
+	callStart(id, "nested", nil)
+	r := ver(file)
+	nfl := 0
+	if r == "panic" {
+		bad = append(bad, "panic")
+	}
+	if r == "true" {
+		for p := im.ptrs[0]; p < im.ptrs[0]+96; p++ {
+			mut := append([]byte{}, file...)
+			mut[p] ^= 0x20
+			nfl++
+			if rr := ver(mut); rr == "true" || rr == "true+error" {
+				bad = append(bad, fmt.Sprintf("nested: byte %d of the enclosing section (offset %d in it) changed, the image still verifies", p, p-im.ptrs[0]))
+				break
+			}
+		}
+	}
+	emit(M{"sc": id, "ev": "call-end", "call": "imgnested", "honest": r, "flips": nfl, "agree": len(bad) == 0, "bad": bad})
+}
 
 func runImgLayout(sc M) {
 	id := sc["sc"]
